@@ -90,7 +90,7 @@ def make_catalogue(kind, root):
                  3: "A_10000101T000000000000-99991231T235959999999.dat"}
     else:
         tmpl = os.path.join(root, "data", "{name}-{version}.dat")      # non-temporal: every entry is [datetime.min, datetime.max]
-        names = {1: "alpha-v1.dat", 2: "beta-v2.dat", 3: "gamma-v10.dat"}
+        names = {1: "alpha-v1.dat", 2: "caf\udce9_\u00fc-v2.dat", 3: "gamma-v10.dat"}     # 2: a name that is not valid UTF-8 (PEP 383 lone surrogate) next to a proper non-ASCII letter
     for i, n in names.items():
         p = os.path.join(root, "data", n)
         with open(p, "wb") as f:
@@ -373,7 +373,13 @@ def truncation_sweep(col, kind):
         truth = {}
         for e in (1, 2):
             truth[paths[e]] = project(fs.get_info(paths[e]))
-        fs.save_cache(cache)
+        try:
+            fs.save_cache(cache)
+        except Exception as ex:
+            col.violation("save_cache-raises-" + type(ex).__name__, {"abstract": {"kind": kind, "entries": [1, 2]},
+                                                                     "concrete": {"names": [os.path.basename(p_) for p_ in truth]},
+                                                                     "observed": repr(ex)[:200]})
+            return
         raw = open(cache, "rb").read()
         for cut in range(0, len(raw)):
             with open(cache, "wb") as f:
